@@ -684,7 +684,9 @@ class Gen:
                 isz = (need if need is not None else 2) + r.choice([0, 0, 1, -1 if r.random() < 0.2 else 0])
                 return dict(k="static", s=s, n=r.choice([0, 1, 2, 3]), isz=max(isz, 0))
             if fk == "dynlen":
-                cnt = simple(std(BUINT, r.choice([8, 8, 4, 16]), None, r.random() < 0.7))
+                # (a 16 bit item count in front of items of zero size makes both sides build lists of up to 65535 empty
+                # items: correct, but it dominates the run time of the model)
+                cnt = simple(std(BUINT, r.choice([8, 8, 4, 16] if s.get("params") else [8, 8, 4]), None, r.random() < 0.7))
                 cb, cbit = r.choice([(0, 0), (0, 0), (1, 0), (0, 2)])
                 off = cb + (cnt["dct"]["bl"] + cbit + 7) // 8 + r.choice([0, 0, 1])
                 return dict(k="dynlen", s=s, offset=off, cb=cb, cbit=cbit, cnt=cnt)
